@@ -96,9 +96,13 @@ func (c *CRLRevocationChecker) Cleanup() error {
 		c.crlUpdateTicker.Stop()
 	}
 	if c.crlUpdateStop != nil {
-		//stopping the ticker does not end the goroutine which waits for ticks
-		close(c.crlUpdateStop)
-		c.crlUpdateStop = nil
+		//stopping the ticker does not end the goroutine which waits for ticks.
+		//(the field is not reset, the goroutine reads it; closing twice is prevented instead)
+		select {
+		case <-c.crlUpdateStop:
+		default:
+			close(c.crlUpdateStop)
+		}
 	}
 	return nil
 }
